@@ -32,37 +32,47 @@ impl VariantDictionary {
     }
 
     pub(crate) fn parse(buffer: &[u8]) -> Result<VariantDictionary, VariantDictionaryError> {
-        let version = LittleEndian::read_u16(&buffer[0..2]);
+        // a dictionary that ends inside an entry is not terminated
+        let take = |pos: &mut usize, length: usize| -> Result<&[u8], VariantDictionaryError> {
+            let end = pos.checked_add(length).ok_or(VariantDictionaryError::NotTerminated)?;
+            let taken = buffer.get(*pos..end).ok_or(VariantDictionaryError::NotTerminated)?;
+            *pos = end;
+            Ok(taken)
+        };
+
+        let mut pos = 0;
+        let version = LittleEndian::read_u16(take(&mut pos, 2)?);
 
         if version != VARIANT_DICTIONARY_VERSION {
             return Err(VariantDictionaryError::InvalidVersion { version });
         }
 
-        let mut pos = 2;
         let mut data = HashMap::new();
 
         while pos + 9 < buffer.len() {
-            let value_type = buffer[pos];
-            pos += 1;
+            let value_type = take(&mut pos, 1)?[0];
 
-            let key_length = LittleEndian::read_u32(&buffer[pos..(pos + 4)]) as usize;
-            pos += 4;
+            let key_length = LittleEndian::read_u32(take(&mut pos, 4)?) as usize;
 
-            let key = String::from_utf8_lossy(&buffer[pos..(pos + key_length)]).to_string();
-            pos += key_length;
+            let key = String::from_utf8_lossy(take(&mut pos, key_length)?).to_string();
 
-            let value_length = LittleEndian::read_u32(&buffer[pos..(pos + 4)]) as usize;
-            pos += 4;
+            let value_length = LittleEndian::read_u32(take(&mut pos, 4)?) as usize;
 
-            let value_buffer = &buffer[pos..(pos + value_length)];
-            pos += value_length;
+            let value_buffer = take(&mut pos, value_length)?;
+
+            // a value shorter than its type is mistyped
+            let fixed = |width: usize| -> Result<&[u8], VariantDictionaryError> {
+                value_buffer
+                    .get(0..width)
+                    .ok_or_else(|| VariantDictionaryError::Mistyped { key: key.clone() })
+            };
 
             let value = match value_type {
-                U32_TYPE_ID => VariantDictionaryValue::UInt32(LittleEndian::read_u32(value_buffer)),
-                U64_TYPE_ID => VariantDictionaryValue::UInt64(LittleEndian::read_u64(value_buffer)),
+                U32_TYPE_ID => VariantDictionaryValue::UInt32(LittleEndian::read_u32(fixed(4)?)),
+                U64_TYPE_ID => VariantDictionaryValue::UInt64(LittleEndian::read_u64(fixed(8)?)),
                 BOOL_TYPE_ID => VariantDictionaryValue::Bool(value_buffer != [0]),
-                I32_TYPE_ID => VariantDictionaryValue::Int32(LittleEndian::read_i32(value_buffer)),
-                I64_TYPE_ID => VariantDictionaryValue::Int64(LittleEndian::read_i64(value_buffer)),
+                I32_TYPE_ID => VariantDictionaryValue::Int32(LittleEndian::read_i32(fixed(4)?)),
+                I64_TYPE_ID => VariantDictionaryValue::Int64(LittleEndian::read_i64(fixed(8)?)),
                 STR_TYPE_ID => {
                     VariantDictionaryValue::String(String::from_utf8_lossy(value_buffer).to_string())
                 }
